@@ -34,6 +34,7 @@ HASHES = {
     "w3x1": _weak_hash(3, 1, 5),                  # one bucket, three homes (wrap-around inside a table)
     "w1x5": _weak_hash(1, 5, 0),                  # equal high parts, five buckets
     "big": lambda key: 0xffffff00 | (crc32(bytes(key)) & 3),   # hash values near 2^32
+    "huge": lambda key: 2 ** 32 + (crc32(bytes(key)) & 255),   # beyond the "!I" of _pointer: struct.error
 }
 
 
@@ -62,6 +63,8 @@ def gen_case(rng, force_n=None):
     ordered = rng.random() < 0.4
     n = force_n if force_n is not None else rng.choice((0, 1, 2, 3, 5, 8, 13, 30, 60, 150))
     hname = rng.choice(["md5", "crc", "cdb", "const", "w2x2", "w3x1", "w1x5", "big"])
+    if force_n is None and rng.random() < 0.03:
+        hname = "huge"
     if ordered and hname in ("crc", "cdb"):
         hname = "md5"          # OrderedHashWriter has no hashtype parameter; custom hashes are patched in
     if n > 200 and hname in ("const", "w3x1"):
@@ -127,7 +130,11 @@ def run_case(case):
             out["write_error"] = type(e).__name__
             f.close()
             return out
-        endpos = w.close()
+        try:
+            endpos = w.close()
+        except struct.error:
+            out["write_error"] = "struct.error"
+            return out
         length = endpos - so
         # ---- raw parse --------------------------------------------------------------------------
         rf = st.open_file("h")
@@ -164,7 +171,7 @@ def run_case(case):
             raw = bio.read()
             size = struct.calcsize(tc)
             out.update(indextype=tc, index=[struct.unpack("!" + tc, raw[i * size:(i + 1) * size])[0] for i in range(ixlen)],
-                       index_trailing=len(raw) - ixlen * size)
+                       index_trailing=len(raw) - ixlen * size, index_raw=raw[:ixlen * size])
         # ---- public API -------------------------------------------------------------------------
         rd = st.open_file("h")
         cls = ft.OrderedHashReader if case["ordered"] else ft.HashReader
@@ -216,11 +223,17 @@ def run_case(case):
 
 def model_line(res):
     case = res["case"]
-    hs = res["hashes"]
+    hs = res.get("hashes")
+    if hs is None:   # the writer raised: recompute the hash values the writer used
+        fn = HASHES[case["hname"]]
+        if fn is None:
+            from whoosh.filedb import filetables as ft
+            fn = ft._hash_functions[{"md5": 0, "crc": 1, "cdb": 2}[case["hname"]]]
+        hs = {k: fn(k) for k in set([k for k, _ in case["pairs"]] + case["probes"])}
     kvs = " ".join("(%s %d %d %d)" % (sexp(k), hs[k], len(v), i) for i, (k, v) in enumerate(case["pairs"]))
     looks = " ".join("(%s %d)" % (sexp(k), hs[k]) for k in case["probes"])
-    cl = " ".join(sexp(k) for k in case["probes"])
-    return "c20 hash %d (%s) (%s) (%s)" % (case["so"], kvs, looks, cl)
+    cl = " ".join(sexp(k) for k in case["probes"]) if case["ordered"] else ""
+    return "c20 hash %d %d (%s) (%s) (%s)" % (int(case["ordered"]), case["so"], kvs, looks, cl)
 
 
 def check_case(ctx, res, mo):
@@ -228,7 +241,7 @@ def check_case(ctx, res, mo):
     pairs = case["pairs"]
     tag = "ordered" if case["ordered"] else "plain"
     parsed = parse_sexp(mo)
-    mpos, meod, mtabs, mlooks, mord, mtc, mcl, mitems = parsed
+    mpos, meod, mtabs, mlooks, mtc, mindex, mcl, mitems = parsed
     # ---------------- correspondence: layout ---------------------------------------------------------
     comp = "filetables.%s" % ("OrderedHashWriter" if case["ordered"] else "HashWriter")
     if [int(x) for x in mpos] != res["positions"] or int(meod) != res["eod"] or res["parse_end"] != res["eod"]:
@@ -244,8 +257,9 @@ def check_case(ctx, res, mo):
         if res["index"] != res["positions"] or res["index_trailing"] != 0:
             ctx.violation("OrderedHashWriter.index!=key-positions", _brief(case), res["positions"], res["index"],
                           "the position index stored in the file is not the list of key positions")
-        if res["indextype"] != mtc:
-            ctx.divergence("filetables.OrderedHashWriter.index.typecode", _brief(case), mtc, res["indextype"])
+        if res["indextype"] != mtc or sexp(res["index_raw"]) != mindex:
+            ctx.divergence("filetables.OrderedHashWriter.index(typecode,bytes)", _brief(case), [mtc, mindex[:80]],
+                           [res["indextype"], sexp(res["index_raw"])[:80]])
         ctx.stat("hash-indextype:%s" % res["indextype"])
     # ---------------- end to end ------------------------------------------------------------------------
     api = res["api"]
@@ -273,8 +287,6 @@ def check_case(ctx, res, mo):
                           "single-value accessors disagree with the first value written under the key")
     if case["ordered"]:
         keys = [k for k, _ in pairs]
-        if mord != "1":
-            ctx.divergence("filetables.OrderedHashWriter.add(order check)", _brief(case), "ValueError", "accepted")
         for k, mc in zip(case["probes"], mcl):
             i = bisect_left(keys, k)
             exp_c = keys[i] if i < len(keys) else None
@@ -381,18 +393,22 @@ def run(ctx):
             continue
         if "write_error" in res:
             ctx.stat("hash-write-error:%s" % res["write_error"])
-            expect_err = case["ordered"] and case["bad_order"] is not None
-            if not expect_err or res["write_error"] != "ValueError":
-                ctx.violation("HashWriter.add:raises-%s" % res["write_error"], _brief(case), "written", res["write_error"],
-                              "add() rejected a valid key sequence")
+            if res["write_error"] == "ValueError" and case["ordered"] and case["bad_order"] is not None:
+                want = "err-value"
+            elif res["write_error"] == "struct.error" and case["hname"] == "huge" and case["pairs"]:
+                want = "err-struct"
             else:
-                # the model's order check must reject it too
-                hs = {k: 0 for k in keys}
-                line = "c20 hash %d (%s) () ()" % (case["so"], " ".join("(%s 0 %d %d)" % (sexp(k), len(v), i)
-                                                                              for i, (k, v) in enumerate(case["pairs"])))
-                mo = parse_sexp(ctx.driver.ask1(line))
-                if mo[4] != "0":
-                    ctx.divergence("filetables.OrderedHashWriter.add(order check)", _brief(case), "accepted", "ValueError")
+                want = None
+                ctx.violation("HashWriter.add:raises-%s" % res["write_error"], _brief(case), "written", res["write_error"],
+                              "the writer rejected a valid key sequence")
+            if want is not None:
+                mo = ctx.driver.ask1(model_line(res))
+                if mo != want:
+                    ctx.divergence("filetables.HashWriter(rejected input)", _brief(case), mo, want)
+            continue
+        if case["hname"] == "huge" and case["pairs"]:
+            ctx.violation("HashWriter:accepts-hash>=2^32", _brief(case), "struct.error", "written",
+                          "a hash value that does not fit the 32-bit slot field was written")
             continue
         if case["ordered"] and case["bad_order"] is not None:
             ctx.violation("OrderedHashWriter.add:accepts-non-increasing-key", _brief(case), "ValueError", "accepted",
@@ -404,7 +420,7 @@ def run(ctx):
     ctx.note('hash: driver %.1fs' % (time.time() - t0))
     t0 = time.time()
     for res, mo in zip(good, outs):
-        if mo in ("bad-op", "nonterminating"):
+        if mo in ("bad-op", "nonterminating") or mo.startswith("err-"):
             ctx.divergence("model.build", _brief(res["case"]), mo, "file written")
             continue
         check_case(ctx, res, mo)
